@@ -184,6 +184,9 @@ func (d *dialer) dial(redial bool) error {
 	// 3. After timing out from a failed connection attempt.
 
 	if !redial {
+		// A failed synchronous dial is not retried, so the dialer is
+		// idle again and Dial may be called once more.
+		d.active = false
 		return err
 	}
 	switch err {
